@@ -4,6 +4,8 @@
 //
 // Pasted verbatim from /repo on every run:
 //   src/ctap2/get_assertion.rs    pub struct Response, pub struct ResponseBuilder, impl ResponseBuilder { build }, pub struct UnsignedExtensionOutputs
+//   src/ctap2/get_info.rs         pub struct Response, pub struct ResponseBuilder, impl ResponseBuilder { build }, pub struct CtapOptions, impl Default for CtapOptions,
+//                                 pub struct Certifications (get-info-full only)
 //   src/ctap2/make_credential.rs  pub struct Response, pub struct ResponseBuilder, impl ResponseBuilder { build }, pub struct UnsignedExtensionOutputs
 //   src/sizes.rs                  AUTHENTICATOR_DATA_LENGTH, ASN1_SIGNATURE_LENGTH;   src/ctap2.rs  pub type SerializedAuthenticatorData
 // The member types are opaque placeholders (nothing is known about them, so nothing about them can be used).
@@ -20,6 +22,11 @@ pub mod placeholders {
     pub struct PublicKeyCredentialUserEntity { _p: () }
     pub struct AttestationStatement { _p: () }
     pub struct AttestationStatementFormat { _p: () }
+    pub struct Vec<T, const N: usize> { _p: core::marker::PhantomData<T> }
+    pub struct Version { _p: () }
+    pub struct Extension { _p: () }
+    pub struct Transport { _p: () }
+    pub struct FilteredPublicKeyCredentialParameters { _p: () }
     }
 }
 
@@ -53,6 +60,50 @@ pub mod ctap2 {
                 r.unsigned_extension_outputs is None, r.ep_att is None, r.att_stmt is None,
 @*/
 //@extract src/ctap2/get_assertion.rs :: ^impl ResponseBuilder \{ :: contracts=build:ga_build
+        }
+    }
+
+    pub mod get_info {
+        use vstd::prelude::*;
+        use crate::placeholders::*;
+        verus! {
+//@extract src/ctap2/get_info.rs :: ^pub struct Response\b :: noderive
+//@extract src/ctap2/get_info.rs :: ^pub struct ResponseBuilder :: noderive
+//@extract src/ctap2/get_info.rs :: ^pub struct CtapOptions :: noderive
+//@extract src/ctap2/get_info.rs :: ^pub struct Certifications :: noderive
+        /// the members that exist only with `get-info-full` (this unit runs in the default configuration and, as `c02_builders@allfeatures`, with it)
+        #[cfg(not(feature = "get-info-full"))]
+        pub open spec fn full_members_unset(r: Response) -> bool { true }
+        #[cfg(feature = "get-info-full")]
+        pub open spec fn full_members_unset(r: Response) -> bool {
+            r.force_pin_change is None && r.min_pin_length is None && r.firmware_version is None && r.max_cred_blob_length is None
+            && r.max_rpids_for_set_min_pin_length is None && r.preferred_platform_uv_attempts is None && r.uv_modality is None
+            && r.certifications is None && r.remaining_discoverable_credentials is None && r.vendor_prototype_config_commands is None
+            && r.attestation_formats is None && r.uv_count_since_last_pin_entry is None && r.long_touch_for_reset is None
+        }
+        #[cfg(not(feature = "get-info-full"))]
+        pub open spec fn full_options_unset(o: CtapOptions) -> bool { true }
+        #[cfg(feature = "get-info-full")]
+        pub open spec fn full_options_unset(o: CtapOptions) -> bool {
+            o.ep is None && o.uv_acfg is None && o.always_uv is None && o.authnr_cfg is None && o.bio_enroll is None && o.uv_bio_enroll is None
+            && o.set_min_pin_length is None && o.make_cred_uv_not_rqd is None && o.credential_mgmt_preview is None
+            && o.user_verification_mgmt_preview is None && o.no_mc_ga_permissions_with_client_pin is None
+        }
+/*@contract gi_build
+            ensures
+                r.versions == self.versions, r.aaguid == self.aaguid,
+                r.extensions is None, r.options is None, r.max_msg_size is None, r.pin_protocols is None, r.max_creds_in_list is None,
+                r.max_cred_id_length is None, r.transports is None, r.algorithms is None, r.max_serialized_large_blob_array is None,
+                full_members_unset(r),
+@*/
+//@extract src/ctap2/get_info.rs :: ^impl ResponseBuilder \{ :: contracts=build:gi_build
+/*@contract gi_options_default
+            ensures
+                // CTAP 2.1 §6.4 option defaults: rk false, up true; every option with no default value absent
+                r.rk == false, r.up == true, r.uv is None, r.plat is None, r.cred_mgmt is None, r.client_pin is None, r.large_blobs is None,
+                r.pin_uv_auth_token is None, full_options_unset(r),
+@*/
+//@extract src/ctap2/get_info.rs :: ^impl Default for CtapOptions :: contracts=default:gi_options_default
         }
     }
 
